@@ -124,28 +124,103 @@ def family(chk, F, fam, exact, withp, full, policy):
     fn = F.find(CORE, full)
     fk = "rink_core::" + full
     sites = calls_to(fn, withp)
-    if len(sites) != 2:
-        raise AnchorLost("%s: expected 2 calls of %s (whole name, plural-stripped), found %d" % (full, withp, len(sites)))
-    (c1, t1), rest = first_and_rest(fn, sites)
-    c2, t2 = rest[0]
-    chk.decide(fn.apath(t1["args"][1]) == (("arg", 2), ()), "fallback-order", fk, "whole-name-first", fn.where(c1),
-               "the full prefixed lookup is tried on the unmodified name first", "first lookup is not on the whole name")
-    k2.fallback_order(chk, fn, "fallback-order", fk, c1, c2, "plural-after-prefix")
-    k2.returned_unchanged(chk, fn, "fallback-order", fk, c1, "prefix-hit-returned")
-    # the retry strips exactly a trailing 's'
-    ap2 = fn.apath(t2["args"][1])
-    s2 = ap_str(ap2)
-    strip_ok = False
+    esites = calls_to(fn, exact)
+    if len(sites) == 2 and not esites:
+        (c1, t1), rest = first_and_rest(fn, sites)
+        c2, t2 = rest[0]
+        chk.decide(fn.apath(t1["args"][1]) == (("arg", 2), ()), "fallback-order", fk, "whole-name-first", fn.where(c1),
+                   "the full prefixed lookup is tried on the unmodified name first", "first lookup is not on the whole name")
+        k2.fallback_order(chk, fn, "fallback-order", fk, c1, c2, "plural-after-prefix")
+        k2.returned_unchanged(chk, fn, "fallback-order", fk, c1, "prefix-hit-returned")
+        chk.decide(strips_s(fn, c2, t2), "fallback-order", fk, "plural-strips-trailing-s", fn.where(c2),
+                   "the retry is on the name without its trailing 's' and only when there is one",
+                   "plural retry argument is %s" % ap_str(fn.apath(t2["args"][1]))[:160])
+        return
+    # any other arrangement of the stage calls (closures included): order them along the all-miss path and compare
+    # the flattened stage sequence with exact(whole) < prefix(whole) < exact(singular) < prefix(singular)
+    stage_order(chk, fn, fk, [(b, t, "P") for b, t in sites] + [(b, t, "E") for b, t in esites], F, exact, withp)
+
+
+def strips_s(fn, c2, t2):
+    s2 = ap_str(fn.apath(t2["args"][1]))
     if "strip_suffix(arg2, " in s2 and "as Some" in s2:
-        strip_ok = True
-    else:
-        # name[0..len-1] guarded by ends_with('s')
-        gs = [fn.guard_desc(g) for g in fn.guards_of(c2)]
-        ew = any(d[0] == "bool" and d[2] is True and any(c.endswith("ends_with") for c in ap_calls(d[1])) for d in gs)
-        strip_ok = ew and "index(" in s2.lower()
-    chk.decide(strip_ok, "fallback-order", fk, "plural-strips-trailing-s", fn.where(c2),
-               "the retry is on the name without its trailing 's' and only when there is one",
-               "plural retry argument is %s" % s2[:160])
+        return True
+    # name[0..len-1] guarded by ends_with('s')
+    gs = [fn.guard_desc(g) for g in fn.guards_of(c2)]
+    ew = any(d[0] == "bool" and d[2] is True and any(c.endswith("ends_with") for c in ap_calls(d[1])) for d in gs)
+    return ew and "index(" in s2.lower()
+
+
+REWRAP = ("Rc::<T>::new", "Arc::<T>::new", "ToOwned for str>::to_owned", "ToString>::to_string", "From<&str>>::from", "Deref>::deref",
+          "Clone>::clone", "String::as_str", "Borrow<str>>::borrow", "AsRef<str>>::as_ref")
+
+
+def is_rewrap_of_param(ap):
+    """The closure's own parameter (arg2), possibly re-wrapped by value-preserving conversions (Rc::new(x.to_owned()) ...)."""
+    for _ in range(8):
+        if ap == (("arg", 2), ()):
+            return True
+        r = ap[0]
+        if r[0] == "call" and not ap[1] and len(r[2]) == 1 and r[1].endswith(REWRAP):
+            ap = r[2][0]
+            continue
+        return False
+    return False
+
+
+def stage_order(chk, fn, fk, calls, F, exact, withp):
+    """calls: [(bb, term, 'E'|'P')] in the full lookup's own body.  Every call must be ordered against every other
+    by 'runs only after the other missed'; the flattened first occurrences must read E(w) P(w) E(s) P(s)."""
+    COMB = ("Option::<T>::map_or", "Option::<T>::is_some_and", "Option::<T>::and_then", "Option::<T>::map")
+    recv_of = {}
+    for c in F.closures_of(fn):
+        inner = [(t, "P") for _, t in calls_to(c, withp)] + [(t, "E") for _, t in calls_to(c, exact)]
+        if not inner:
+            continue
+        # the stage runs where the closure is handed to an Option combinator; its name parameter is the Some-content
+        # of the combinator's receiver
+        use = [(bb, t) for bb, t in fn.calls() if "callee" in t and any(("closure:" + c.path) in ap_str(fn.apath(a)) for a in t["args"][1:])]
+        if len(use) != 1 or len(inner) != 1 or not use[0][1]["callee"]["path"].endswith(COMB) or not is_rewrap_of_param(c.apath(inner[0][0]["args"][1])):
+            raise AnchorLost("%s runs a lookup stage inside closure %s in a way this rule does not model" % (fn.path, c.path))
+        bb, t = use[0]
+        recv_of[bb] = fn.apath(t["args"][0])
+        calls.append((bb, {"args": [None, t["args"][0]]}, inner[0][1]))
+    if not calls:
+        raise AnchorLost("%s calls neither %s nor %s" % (fn.path, exact, withp))
+    # total order along the all-miss path: a before b when b is reachable from a (the body has no loop over stages)
+    reach = {c[0]: fn.reachable(c[0]) for c in calls}
+    order = sorted(calls, key=lambda c: sum(1 for d in calls if d[0] != c[0] and c[0] in reach[d[0]]))
+    for a, b in zip(order, order[1:]):
+        if b[0] not in reach[a[0]] or a[0] in reach[b[0]]:
+            raise AnchorLost("%s: lookup stages at %s and %s are not ordered along one path" % (fn.path, fn.where(a[0]), fn.where(b[0])))
+    flat = []
+    for i, (bb, t, kind) in enumerate(order):
+        ap = fn.apath(t["args"][1])
+        if ap == (("arg", 2), ()):
+            nm = "whole"
+        elif "strip_suffix(arg2, " in ap_str(ap) or (bb not in recv_of and strips_s(fn, bb, t)):
+            nm = "singular"
+        else:
+            chk.finding("fallback-order", fk, "stage-name", fn.where(bb),
+                        "lookup stage is tried on %s, which is neither the whole name nor the name without its trailing 's'" % ap_str(ap)[:120])
+            continue
+        if i > 0:
+            chk.decide(all(k2.only_after_miss(fn, p[0], bb) for p in order[:i]), "fallback-order", fk, "stage-%d-only-after-miss" % (i + 1), fn.where(bb),
+                       "stage runs only on the miss edge of the previous stage",
+                       "stage at %s can run after an earlier stage (%s) has hit" % (fn.where(bb), ", ".join(fn.where(p[0]) for p in order[:i])))
+        for st in (["E", "P"] if kind == "P" else ["E"]):
+            if (st, nm) not in [f[0] for f in flat]:
+                flat.append(((st, nm), bb))
+    want = [("E", "whole"), ("P", "whole"), ("E", "singular"), ("P", "singular")]
+    got = [f[0] for f in flat]
+    bad = next((flat[i] for i in range(len(flat)) if i >= len(want) or flat[i][0] != want[i]), None)
+    names = {"E": "exact", "P": "prefixed"}
+    chk.decide(got == want, "fallback-order", fk, "plural-after-prefix", fn.where(bad[1]) if bad else fn.where(order[0][0]),
+               "stages run as exact(whole), prefixed(whole), exact(singular), prefixed(singular)",
+               "stages run as %s; expected exact(whole) < prefixed(whole) < exact(singular) < prefixed(singular): a plural-stripped "
+               "or later-stage reading can win over an earlier-stage reading of the same name"
+               % ", ".join("%s(%s)" % (names[a], b) for a, b in got))
+    k2.returned_unchanged(chk, fn, "fallback-order", fk, order[0][0], "prefix-hit-returned")
 
 
 def prefixed_value(chk, fn, fk, c2):
